@@ -1,6 +1,7 @@
 #!/bin/bash
 # run every check's quick tier for several seeds into a scratch output dir; report anything that is not silent
 cd "$(dirname "$0")/.."
+/venv/bin/python -m compileall -q mc > /dev/null || { echo "COMPILE-ERROR in mc/"; exit 2; }
 OUT=${1:-/tmp/seeds_out}
 SEEDS=${2:-"0 1 2 3"}
 rm -rf "$OUT"; mkdir -p "$OUT"
